@@ -306,6 +306,85 @@ def meta_cases(draw):
     return c
 
 
+# ---------------------------------------------------------------- the same through trainer.py (real process, real stdout)
+_CLI19 = [None]
+
+
+def prop_meta_cli(case, rec):
+    """Each rendering of the list is trained by trainer.py as a subprocess under a drawn invocation context (among them a stdout
+    whose error handler is 'strict', as on an ordinary UTF-8 terminal): all renderings complete or none, and give one ruleset."""
+    import shutil
+    import subprocess
+    from .. import cli, session
+    if _CLI19[0] is None or not os.path.isdir(_CLI19[0]):
+        _CLI19[0] = session.copy_cli(session.make_root('c19cli'))
+    root = _CLI19[0]
+    enc = case['encoding']
+    ctx = case.get('context') or cli.DEFAULT
+    shutil.rmtree(os.path.join(root, 'Rules'), ignore_errors=True)
+    os.makedirs(os.path.join(root, 'Rules'))
+    trees, rcs = {}, {}
+    for mode in ('plain', 'hex', 'prefix'):
+        data = materialise(case, mode)
+        path = os.path.join(_dir(), f'cli_{mode}.txt')
+        with open(path, 'wb') as f:
+            f.write(data)
+        name = 'R ' + mode
+        try:
+            p = cli.run(root, 'trainer.py', ['-t', path, '-r', name, '-e', enc, '-c', str(case['coverage']), '-n', str(case['ngram']), '-a',
+                                              str(max(10, case['alphabet_size']))] + (['--prefixcount'] if mode == 'prefix' else []), ctx, timeout=600, rule_name=name)
+        except subprocess.TimeoutExpired:
+            rec.skip('cli_timeout_inconclusive')
+            return
+        d = os.path.join(root, 'Rules', name)
+        rcs[mode] = (p.returncode, p.stderr.decode('utf-8', 'replace')[-300:])
+        trees[mode] = tree(d) if os.path.exists(os.path.join(d, 'config.ini')) else None
+        if trees[mode]:
+            for rel, data_ in trees[mode].items():
+                if MARK.encode('ascii') in data_ or MARK.lower().encode('ascii') in data_:
+                    raise Violation('junk_leaked', f'trainer.py, rendering {mode}: text of a junk line appears in ruleset file {rel}', case)
+    rec.case({'encoding': enc, 'context': ctx, 'junk': [k for k, _ in case['junk']], 'completed': {m: bool(t) for m, t in trees.items()}}, len(case['junk']) >= 1,
+             ['cli_renderings'] + cli.label(ctx) + ['junk_' + (k or 'blank') for k, _ in case['junk']], key=[case, 'cli'])
+    oks = {m: t is not None for m, t in trees.items()}
+    if len(set(oks.values())) != 1:
+        raise Violation('completion_differs', f'trainer.py ({ctx}) completes for some renderings only: {oks}; return codes / stderr tails: {rcs}', case)
+    # the command-line tool completes exactly when the library does on the same file, and writes the same ruleset
+    lib_out = os.path.join(_dir(), 'R_cli_lib')
+    rl = guard(case, trainer.train, os.path.join(_dir(), 'cli_plain.txt'), lib_out, encoding=enc, coverage=case['coverage'], ngram=case['ngram'],
+               alphabet_size=max(10, case['alphabet_size']), save_sensitive=False)
+    if bool(rl.ok) != oks['plain']:
+        raise Violation('cli_completion', f'run_trainer() completed: {bool(rl.ok)}, trainer.py ({ctx}) wrote a ruleset: {oks["plain"]}; rc / stderr tail: {rcs["plain"]}', case)
+    if not oks['plain']:
+        rec.skip('trainer_did_not_complete')
+        return
+    base = trees['plain']
+    lib_tree = tree(lib_out)
+    if lib_tree != base:
+        diff = sorted(k for k in set(lib_tree) | set(base) if lib_tree.get(k) != base.get(k))
+        raise Violation('cli_differs_from_library', f'trainer.py ({ctx}) and run_trainer() write different rulesets for the same file: {diff[:6]}', case)
+    for mode in ('hex', 'prefix'):
+        other = trees[mode]
+        if set(other) != set(base):
+            raise Violation('ruleset_files_differ', f'trainer.py {mode} vs plain: file sets differ: {sorted(set(other) ^ set(base))[:6]}', case)
+        for rel in base:
+            if base[rel] != other[rel]:
+                raise Violation('ruleset_differs', f'trainer.py {mode} vs plain: {rel} differs: {other[rel][:120]!r} vs {base[rel][:120]!r}', case)
+
+
+def run_meta_cli(rec, seed, shard, nshards, tier):
+    from .. import cli
+    n = {'quick': 3, 'thorough': 40}[tier]
+    def with_ctx(t):
+        c = dict(t[0], context=t[1])
+        if t[2]:
+            # a plain line with bytes the encoding cannot decode (the reader hands such a line on with surrogate escapes)
+            bad = {'utf-8': b'\xff\xfe', 'ascii': b'\xe9', 'cp1251': b'\x98', 'cp1252': b'\x81', 'latin-1': b'\x1f'}[c['encoding']]
+            c['junk'] = list(c['junk']) + [['undecodable', (b'caf' + bad + (MARK + 'xy').encode('ascii')).hex()]]
+        return c
+    strat = st.tuples(meta_cases(), cli.contexts(rule_names=False, io_modes=('utf8', 'utf8_strict', 'utf8_strict')), st.booleans()).map(with_ctx)
+    core.hyp_run(rec, prop_meta_cli, strat, n, seed, shrink=(tier == 'thorough'))
+
+
 def run_meta(rec, seed, shard, nshards, tier):
     n = {'quick': 25, 'thorough': 800}[tier]
     core.hyp_run(rec, prop_meta, meta_cases(), n, seed)
@@ -352,4 +431,5 @@ PARTS = [
     Part('regression_f19', run_regress, prop_meta, {'quick': 1, 'thorough': 1}),
     Part('reader_vs_reference', run_reader, prop_reader, {'quick': 8, 'thorough': 16}),
     Part('renderings_train_same_ruleset', run_meta, prop_meta, {'quick': 8, 'thorough': 16}),
+    Part('cli_renderings', run_meta_cli, prop_meta_cli, {'quick': 4, 'thorough': 8}),
 ]
